@@ -340,13 +340,30 @@ type player struct {
 	udpSrc          map[string]int                // udp_client: source address of the node's socket -> channel instance
 	serials         []*ctlRWC
 	lastAct         int64
+	lastActTick     int64 // canary tick at the last activity
+	ticks           int64 // canary ticks
 	reuse           map[int]*common.MessageNamedValueInt
 	expect          map[int]int64 // frames the harness expects on each custom endpoint (pacing only, never a verdict)
 }
 
 func (p *player) ms() int { return int(time.Since(p.t0) / time.Millisecond) }
 
-func (p *player) touch() { atomic.StoreInt64(&p.lastAct, time.Now().UnixNano()) }
+func (p *player) touch() {
+	atomic.StoreInt64(&p.lastAct, time.Now().UnixNano())
+	atomic.StoreInt64(&p.lastActTick, atomic.LoadInt64(&p.ticks))
+}
+
+// canary: "nothing moved for a while" must not be concluded from the wall clock alone - on a machine so busy that this
+// process does not run for tens of milliseconds, nothing moves because nothing runs. The canary ticks once per millisecond
+// of its own sleeping and waking: a quiet interval is counted in its ticks, during each of which the scheduler has had the
+// chance to run whatever else was runnable in this process.
+func (p *player) canary() {
+	for {
+		time.Sleep(time.Millisecond)
+		atomic.AddInt64(&p.ticks, 1)
+		runtime.Gosched()
+	}
+}
 
 func gateKey(point string, ep int) string { return fmt.Sprintf("%s@%d", point, ep) }
 
@@ -733,7 +750,8 @@ func (p *player) quiesce(idle, bound time.Duration) bool {
 	dl := time.Now().Add(bound)
 	for time.Now().Before(dl) {
 		last := time.Unix(0, atomic.LoadInt64(&p.lastAct))
-		if time.Since(last) > idle {
+		quietTicks := atomic.LoadInt64(&p.ticks) - atomic.LoadInt64(&p.lastActTick)
+		if time.Since(last) > idle && quietTicks > int64(idle/time.Millisecond) {
 			return true
 		}
 		time.Sleep(2 * time.Millisecond)
@@ -1037,6 +1055,7 @@ func cmdNode(o opts) {
 	p.consCond = sync.NewCond(&p.mu)
 	p.pauseReq = make(chan struct{})
 	p.rec.Flush = true
+	go p.canary()
 	p.touch()
 	defer func() {
 		if r := recover(); r != nil {
